@@ -264,7 +264,7 @@ def tab_plc(ctx):
     if need_rw:
         from . import p_symbols
         allv = list(p_symbols.tables(ctx)["variants"])
-        ok_w, det_w = ctx.memo("rw_exec_%d" % len(allv), lambda: list(_rw_exec(ctx, allv)))
+        ok_w, det_w = ctx.memo("rw_scan_%d" % len(allv), lambda: list(_rw_exec(ctx, allv)))[:2]
     out = []
     for o in obs:
         if o.ok or getattr(o, "info", False):
@@ -665,8 +665,14 @@ def placement_exec(ctx, dims=None):
     (codeword number, eight module indices) must equal Annex F's.  The traversal never looks at module values, so one run per
     size decides it for all contents.  (ok | None, detail)"""
     if dims is None:
-        return ctx.memo("placement_exec", lambda: list(_placement_exec(ctx, None)))
-    return _placement_exec(ctx, dims)
+        return tuple(ctx.memo("placement_scan", lambda: list(_placement_exec(ctx, None)))[:2])
+    return _placement_exec(ctx, dims)[:2]
+
+
+def placement_safe(ctx):
+    """the same folds as placement_exec, judged without the standard: the traversal does not trap, numbers the codewords
+    0, 1, 2, .., hands out h*w/8 groups of eight module indices, all in range and no module twice.  (ok | None, detail)"""
+    return tuple(ctx.memo("placement_scan", lambda: list(_placement_exec(ctx, None)))[2:4])
 
 
 def _placement_exec(ctx, dims):
@@ -674,7 +680,7 @@ def _placement_exec(ctx, dims):
     fn = IT + "::run"
     b = f.thir.get(fn)
     if b is None:
-        return None, "IndexTraversal::run not found"
+        return None, "IndexTraversal::run not found", None, "IndexTraversal::run not found"
     from . import p_symbols
     t = p_symbols.tables(ctx)
     if dims is None:
@@ -686,10 +692,11 @@ def _placement_exec(ctx, dims):
                 dims.append(d)
     pn = [p_["pat"]["name"] for p_ in b["params"] if p_.get("pat", {}).get("k") == "Bind"]
     if len(pn) != 2:
-        return None, "run(&self, visit_fn): unexpected parameters"
+        return None, "run(&self, visit_fn): unexpected parameters", None, "run(&self, visit_fn): unexpected parameters"
     adt = f.adts.get(IT)
     if not adt:
-        return None, "IndexTraversal not found"
+        return None, "IndexTraversal not found", None, "IndexTraversal not found"
+    annex_bad = None
     fields = [x["name"] for x in adt["variants"][0]["fieldtys"]]
     total = 0
     for (h, w) in dims:
@@ -712,49 +719,68 @@ def _placement_exec(ctx, dims):
         try:
             fo.run(b["body"])
         except T.Trap as ex:
-            return False, "%d x %d: the traversal traps: %s" % (h, w, ex)
+            m = "%d x %d: the traversal traps: %s" % (h, w, ex)
+            return False, m, False, m
         except T.Undecidable as ex:
-            return None, "%d x %d: the traversal does not fold (%s)" % (h, w, ex)
+            m = "%d x %d: the traversal does not fold (%s)" % (h, w, ex)
+            return None, m, None, m
         ref = annex_f(h, w)
         if [k for k, _ in seen] != list(range(len(seen))):
-            return False, "%d x %d: codeword numbers are not 0, 1, 2, .. (%r ..)" % (h, w, [k for k, _ in seen][:5])
+            m = "%d x %d: codeword numbers are not 0, 1, 2, .. (%r ..)" % (h, w, [k for k, _ in seen][:5])
+            return False, m, False, m
         got = [x for _, x in seen]
-        if got != ref:
+        flat = [x for g in got for x in (g if isinstance(g, list) else [g])]
+        if not all(isinstance(g, list) and len(g) == 8 for g in got) or not all(isinstance(x, int) and not isinstance(x, bool) for x in flat):
+            m = "%d x %d: a codeword does not get eight concrete module indices" % (h, w)
+            return None, m, None, m
+        if len(got) != (h * w) // 8 or any(not 0 <= x < h * w for x in flat) or len(set(flat)) != len(flat):
+            dup = next((x for i, x in enumerate(flat) if x in flat[:i] or not 0 <= x < h * w), None)
+            m = "%d x %d mapping matrix: %d codewords placed (%d fit); module index %r is out of range or handed out twice" % (h, w, len(got), (h * w) // 8, dup)
+            return False, m, False, m
+        if got != ref and annex_bad is None:
             k = next((k for k in range(min(len(got), len(ref))) if got[k] != ref[k]), min(len(got), len(ref)))
-            return False, "%d x %d mapping matrix: %d codewords placed (Annex F: %d); codeword %d goes to modules %r, Annex F says %r" % (
+            annex_bad = "%d x %d mapping matrix: %d codewords placed (Annex F: %d); codeword %d goes to modules %r, Annex F says %r" % (
                 h, w, len(got), len(ref), k, [(x // w, x % w) for x in got[k]] if k < len(got) and all(isinstance(x, int) for x in got[k]) else None,
                 [(x // w, x % w) for x in ref[k]] if k < len(ref) else None)
         total += len(got)
-    return True, "%d mapping-matrix sizes, %d codeword placements equal to Annex F" % (len(dims), total)
+    safe = "%d mapping-matrix sizes, %d codeword placements: numbered 0, 1, 2, .., eight modules each, every index in range, no module twice" % (len(dims), total)
+    if annex_bad is not None:
+        return False, annex_bad, True, safe
+    return True, "%d mapping-matrix sizes, %d codeword placements equal to Annex F" % (len(dims), total), True, safe
 
 
 def _rw_exec(ctx, variants):
     """MatrixMap::new_with_codewords(data, size) and MatrixMap::codewords() folded (M = bool) for the given sizes with two
     codeword vectors (a pattern and its complement): bit k (MSB first) of codeword i must land in the module Annex F assigns to
     it, the fixed corner pattern must be there for the sizes that have it, every module is accounted for, and reading returns
-    the vector that was written.  (ok | None, detail)"""
+    the vector that was written.  (ok | None, detail, ok_rt | None, detail_rt): the second pair judges only that writing and
+    reading do not trap and that reading returns what was written, wherever the bits were put."""
     f = ctx.facts()
     from . import p_symbols
     t = p_symbols.tables(ctx)
     wn = next((n for n in f.thir if T.canon(n).endswith("MatrixMap::new_with_codewords")), None)
     rn = next((n for n in f.thir if T.canon(n).endswith("MatrixMap::codewords")), None)
     if wn is None or rn is None:
-        return None, "new_with_codewords / codewords not found"
+        return None, "new_with_codewords / codewords not found", None, "new_with_codewords / codewords not found"
     wb, rb = f.thir[wn], f.thir[rn]
     wp = [p_["pat"]["name"] for p_ in wb["params"] if p_.get("pat", {}).get("k") == "Bind"]
     rp = [p_["pat"]["name"] for p_ in rb["params"] if p_.get("pat", {}).get("k") == "Bind"]
     if len(wp) != 2 or len(rp) != 1:
-        return None, "unexpected parameters"
+        return None, "unexpected parameters", None, "unexpected parameters"
     n = 0
+    annex_bad = None
+
+    def both(ok, m):
+        return ok, m, ok, m
     for v in variants:
         su = t["setup"][v]
         h, w = su["height"] - 2 - 2 * su["extra_horizontal_alignments"], su["width"] - 2 - 2 * su["extra_vertical_alignments"]
         ref = annex_f(h, w)
         ncw = t["data"][v] + su["num_ecc_blocks"] * su["num_ecc_per_block"] if isinstance(t["data"].get(v), int) else len(ref)
         if ncw != len(ref):
-            return False, "%s: %d codewords but Annex F places %d in a %d x %d mapping matrix" % (v, ncw, len(ref), h, w)
+            annex_bad = annex_bad or "%s: %d codewords but Annex F places %d in a %d x %d mapping matrix" % (v, ncw, len(ref), h, w)
         for flip in ((0, 255) if h * w <= 900 else (0,)):
-            data = [((37 * i + 11) % 256) ^ flip for i in range(len(ref))]
+            data = [((37 * i + 11) % 256) ^ flip for i in range(ncw)]
             fo = T.Folder(f, env={wp[0]: list(data), wp[1]: {"__adt__": "symbol_size::SymbolSize", "__variant__": v}}, effects=True, local_calls=6)
             fo.const_values = {"HIGH": True, "LOW": False}
             fo.sym_eq = lambda a_, b_: False
@@ -763,31 +789,15 @@ def _rw_exec(ctx, variants):
             try:
                 mm = fo.run(wb["body"])
             except T.Trap as ex:
-                return False, "%s: writing traps: %s" % (v, ex)
+                return both(False, "%s: writing traps: %s" % (v, ex))
             except T.Undecidable as ex:
-                return None, "%s: new_with_codewords does not fold (%s)" % (v, ex)
+                return both(None, "%s: new_with_codewords does not fold (%s)" % (v, ex))
             ent = mm.get("entries") if isinstance(mm, dict) else None
             if not (isinstance(ent, list) and len(ent) == h * w):
-                return False, "%s: the written map has %s modules, expected %d" % (v, len(ent) if isinstance(ent, list) else None, h * w)
+                return both(False, "%s: the written map has %s modules, expected %d" % (v, len(ent) if isinstance(ent, list) else None, h * w))
             ent = [x.load() if isinstance(x, T.Ref) else x for x in ent]
-            want = [None] * (h * w)
-            for i, cells in enumerate(ref):
-                for k, m in enumerate(cells):
-                    want[m] = bool((data[i] >> (7 - k)) & 1)
-            rest = [m for m in range(h * w) if want[m] is None]
-            if t["padding"].get(v):
-                corner = {(h - 2) * w + (w - 2): True, (h - 2) * w + (w - 1): False, (h - 1) * w + (w - 2): False, (h - 1) * w + (w - 1): True}
-                if sorted(rest) != sorted(corner):
-                    return False, "%s: the modules no codeword covers are %r, not the lower right 2x2 corner" % (v, [(m // w, m % w) for m in rest])
-                for m, val in corner.items():
-                    want[m] = val
-            elif rest:
-                return False, "%s: modules %r are covered by no codeword" % (v, [(m // w, m % w) for m in rest[:4]])
-            if ent != want:
-                m = next(m for m in range(h * w) if ent[m] != want[m])
-                owner = next(((i, k) for i, cells in enumerate(ref) for k, mm2 in enumerate(cells) if mm2 == m), None)
-                return False, "%s: module (%d, %d) is %r after writing, Annex F puts %s there (expected %r)" % (
-                    v, m // w, m % w, ent[m], ("bit %d (MSB = 1) of codeword %d" % (owner[1] + 1, owner[0])) if owner else "the fixed corner pattern", want[m])
+            if annex_bad is None and ncw == len(ref):
+                annex_bad = _annex_positions(v, h, w, ref, data, ent, t["padding"].get(v))
             fo2 = T.Folder(f, env={rp[0]: mm}, effects=True, local_calls=6)
             fo2.const_values = {"HIGH": True, "LOW": False}
             fo2.sym_eq = lambda a_, b_: False
@@ -796,21 +806,53 @@ def _rw_exec(ctx, variants):
             try:
                 back = fo2.run(rb["body"])
             except T.Trap as ex:
-                return False, "%s: reading traps: %s" % (v, ex)
+                return both(False, "%s: reading traps: %s" % (v, ex))
             except T.Undecidable as ex:
-                return None, "%s: codewords() does not fold (%s)" % (v, ex)
+                return both(None, "%s: codewords() does not fold (%s)" % (v, ex))
             back = [x.load() if isinstance(x, T.Ref) else x for x in back] if isinstance(back, list) else back
             if back != data:
                 i = next((i for i in range(min(len(back), len(data))) if back[i] != data[i]), min(len(back), len(data))) if isinstance(back, list) else 0
-                return False, "%s: reading the written matrix returns %s for codeword %d, %d was written" % (v, back[i] if isinstance(back, list) and i < len(back) else back, i, data[i] if i < len(data) else -1)
+                return both(False, "%s: reading the written matrix returns %s for codeword %d, %d was written" % (v, back[i] if isinstance(back, list) and i < len(back) else back, i, data[i] if i < len(data) else -1))
         n += 1
-    return True, "%d symbol sizes: writing puts every codeword bit (MSB first) where Annex F says, the fixed corner is in place, reading returns what was written" % n
+    rt = "%d symbol sizes: writing and reading do not trap and reading returns what was written (two complementary codeword vectors)" % n
+    if annex_bad is not None:
+        return False, annex_bad, True, rt
+    return True, "%d symbol sizes: writing puts every codeword bit (MSB first) where Annex F says, the fixed corner is in place, reading returns what was written" % n, True, rt
 
 
-def plc_rw(ctx):
+def _annex_positions(v, h, w, ref, data, ent, has_padding):
+    """None when the written modules `ent` are where Annex F puts the bits of `data`, else the first difference"""
+    want = [None] * (h * w)
+    for i, cells in enumerate(ref):
+        for k, m in enumerate(cells):
+            want[m] = bool((data[i] >> (7 - k)) & 1)
+    rest = [m for m in range(h * w) if want[m] is None]
+    if has_padding:
+        corner = {(h - 2) * w + (w - 2): True, (h - 2) * w + (w - 1): False, (h - 1) * w + (w - 2): False, (h - 1) * w + (w - 1): True}
+        if sorted(rest) != sorted(corner):
+            return "%s: the modules no codeword covers are %r, not the lower right 2x2 corner" % (v, [(m // w, m % w) for m in rest])
+        for m, val in corner.items():
+            want[m] = val
+    elif rest:
+        return "%s: modules %r are covered by no codeword" % (v, [(m // w, m % w) for m in rest[:4]])
+    if ent != want:
+        m = next(m for m in range(h * w) if ent[m] != want[m])
+        owner = next(((i, k) for i, cells in enumerate(ref) for k, mm2 in enumerate(cells) if mm2 == m), None)
+        return "%s: module (%d, %d) is %r after writing, Annex F puts %s there (expected %r)" % (
+            v, m // w, m % w, ent[m], ("bit %d (MSB = 1) of codeword %d" % (owner[1] + 1, owner[0])) if owner else "the fixed corner pattern", want[m])
+    return None
+
+
+def plc_rt(ctx):
+    """PLC-RT: the consistency half of PLC-RW, for the round-trip property: the writer and the reader of the mapping matrix,
+    folded per size, do not trap and reading returns what was written; the traversal they share is injective and in range
+    (placement_safe).  Where the bits are put is not judged here (that is the placement property)."""
+    return plc_rw(ctx, rt_only=True, r="PLC-RT")
+
+
+def plc_rw(ctx, rt_only=False, r="PLC-RW"):
     """PLC-RW: the writer and the reader of the mapping matrix, folded per size (see _rw_exec); quick: the sizes up to a 26 x 26 /
     12 x 64-module mapping matrix (they include all four corner cases, the fixed corner pattern and the DMRE row wrap), thorough: all 48"""
-    r = "PLC-RW"
     f = ctx.facts()
     from . import p_symbols
     t = p_symbols.tables(ctx)
@@ -825,8 +867,13 @@ def plc_rw(ctx):
         return "row-wrap" in c
     wrap_sizes = sorted((v for v in t["variants"] if wraps(v)), key=area)[:1]
     vs = [v for v in t["variants"] if ctx.tier == "thorough" or area(v) <= 400 or v in wrap_sizes]
-    ok, det = ctx.memo("rw_exec_%d" % len(vs), lambda: list(_rw_exec(ctx, vs)))
-    obs = [Ob(r, "write-read", bool(ok), ("cannot decide: " if ok is None else "") + str(det))]
+    ok, det, ok_rt, det_rt = ctx.memo("rw_scan_%d" % len(vs), lambda: list(_rw_exec(ctx, vs)))
+    if rt_only:
+        ok_s, det_s = placement_safe(ctx)
+        obs = [Ob(r, "write-read", bool(ok_rt), ("cannot decide: " if ok_rt is None else "") + str(det_rt)),
+               Ob(r, "injective", bool(ok_s), ("cannot decide: " if ok_s is None else "") + "the traversal both use gives every codeword its own eight modules: " + str(det_s))]
+    else:
+        obs = [Ob(r, "write-read", bool(ok), ("cannot decide: " if ok is None else "") + str(det))]
     # which placement cases the folded sizes exercise (so that the quick subset is not vacuous)
     cases = set()
     for v in vs:
@@ -842,14 +889,16 @@ def plc_rw(ctx):
 def plc_index(ctx):
     """PLC-INDEX: the index arithmetic of the placement (the ledger's former `placement-index` class) cannot fail for any map the
     crate constructs: IndexTraversal::run / idx / utah / corner1-4 folded for the mapping matrix of all 48 sizes evaluate every
-    `visited[..]` index and every debug assertion of idx() without a trap, and hand out exactly Annex F's module indices
-    (all < h*w) and the codeword numbers 0 .. h*w/8 - 1; the maps these run on have entries.len() = h*w with (h, w) a catalogue
+    `visited[..]` index and every debug assertion of idx() without a trap, and hand out h*w/8 groups of eight distinct module
+    indices (all < h*w) and the codeword numbers 0 .. h*w/8 - 1 (whether they are Annex F's is the placement property's question); the maps these run on have entries.len() = h*w with (h, w) a catalogue
     size (MatrixMap::new folded for every size; try_from_bits by PARSE-INV), so `entries[indices[k]]` and `data[idx]` in
     traverse / traverse_mut / codewords are in range."""
     r = "PLC-INDEX"
     from . import p_bitmap
-    ok_t, det_t = placement_exec(ctx)
+    ok_t, det_t = placement_safe(ctx)
     ok_p, det_p = p_bitmap.parse_exec(ctx)
+    if ok_p is False and str(det_p).startswith(p_bitmap.OVER):
+        ok_p = True     # which pixel values are accepted does not matter for the shape of the map
     ok_n, det_n = ctx.memo("map_new_exec", lambda: list(p_bitmap._map_new_exec(ctx)))
     obs = [Ob(r, "traversal", bool(ok_t), ("cannot decide: " if ok_t is None else "") + "no index or assertion of the traversal can fail, for every size: " + str(det_t)),
            Ob(r, "maps", bool(ok_p) and bool(ok_n), "every map the crate builds has entries.len() = height * width of a catalogue size: new(): %s; try_from_bits: %s" % (det_n, det_p))]
